@@ -26,6 +26,11 @@ enum OutState {
     Regular(u8),
     /// Block device via hook: size relation -1 smaller, 0 equal, 1 larger
     BlockDev(i8),
+    /// The output path is a dangling symbolic link (target does not exist).
+    DanglingSymlink,
+    /// The output path is absent when bita starts but is created by somebody else while
+    /// bita is still fetching the archive header (HTTP only).
+    AppearsDuringHeaderFetch,
 }
 
 #[derive(Clone, Copy, Debug, PartialEq, Eq)]
@@ -60,6 +65,10 @@ impl Cell {
         }
         match self.out {
             OutState::Absent => (false, false),
+            // O_CREAT|O_EXCL refuses a symlink, dangling or not; with --force-create /
+            // --seed-output the link is followed and its target created.
+            OutState::DanglingSymlink => (!self.force && !self.seed_output, false),
+            OutState::AppearsDuringHeaderFetch => (!self.force && !self.seed_output, false),
             OutState::Regular(_) => (!self.force && !self.seed_output, false),
             OutState::BlockDev(rel) => {
                 if !self.force && !self.seed_output {
@@ -82,6 +91,8 @@ fn all_cells() -> Vec<Cell> {
         OutState::BlockDev(-1),
         OutState::BlockDev(0),
         OutState::BlockDev(1),
+        OutState::DanglingSymlink,
+        OutState::AppearsDuringHeaderFetch,
     ];
     let archs = [
         ArchKind::Valid,
@@ -97,6 +108,9 @@ fn all_cells() -> Vec<Cell> {
         for (force, seed_output) in [(false, false), (true, false), (false, true), (true, true)] {
             for arch in archs {
                 for http in [false, true] {
+                    if out == OutState::AppearsDuringHeaderFetch && !http {
+                        continue;
+                    }
                     v.push(Cell { out, force, seed_output, arch, http });
                 }
             }
@@ -152,8 +166,15 @@ fn clone_cell(rep: &Report, idx: usize, cell: &Cell, seed: u64) -> Option<String
         let odir = dir.join("o");
         std::fs::create_dir_all(&odir).unwrap();
         let out = odir.join("out.bin");
+        let link_target = odir.join("link-target.bin");
+        let appear_content: Vec<u8> = Rng::new(seed ^ 0xa99e).bytes(777);
         let prior: Option<Vec<u8>> = match cell.out {
             OutState::Absent => None,
+            OutState::DanglingSymlink => {
+                std::os::unix::fs::symlink(&link_target, &out).map_err(|e| e.to_string())?;
+                None
+            }
+            OutState::AppearsDuringHeaderFetch => None,
             OutState::Regular(0) => {
                 let l = rng.urange(1, 500);
                 Some(rng.bytes(l))
@@ -181,7 +202,25 @@ fn clone_cell(rep: &Report, idx: usize, cell: &Cell, seed: u64) -> Option<String
             std::fs::write(&out, pz).unwrap();
         }
         let before = listing(&odir);
-        let server = if cell.http { Some(Server::start(Arc::new(abytes.clone()), httpd::well_behaved())) } else { None };
+        let server = if cell.http {
+            if cell.out == OutState::AppearsDuringHeaderFetch {
+                let (o2, c2) = (out.clone(), appear_content.clone());
+                Some(Server::start(
+                    Arc::new(abytes.clone()),
+                    Arc::new(move |req, _f| {
+                        if req.n == 0 {
+                            // somebody else creates the output while the header is in flight
+                            let _ = std::fs::write(&o2, &c2);
+                        }
+                        httpd::Action::Full
+                    }),
+                ))
+            } else {
+                Some(Server::start(Arc::new(abytes.clone()), httpd::well_behaved()))
+            }
+        } else {
+            None
+        };
         let spec = CloneSpec {
             archive: server.as_ref().map(|s| s.url()).unwrap_or_else(|| p(&apath)),
             output: out.clone(),
@@ -205,6 +244,14 @@ fn clone_cell(rep: &Report, idx: usize, cell: &Cell, seed: u64) -> Option<String
         let after = listing(&odir);
         let now = std::fs::read(&out).ok();
         let (refusal, header_refusal) = cell.expectation();
+        // For the race cell the "prior" content is what the other party wrote (if it got
+        // to write at all: an archive refusal can come before or after the first request).
+        let appeared = cell.out == OutState::AppearsDuringHeaderFetch;
+        let prior = if appeared && refusal { if now.is_some() || out.exists() { Some(appear_content.clone()) } else { None } } else { prior };
+        let before = if appeared { after.iter().filter(|f| *f == "out.bin" && prior.is_some() || before.contains(*f)).cloned().collect() } else { before };
+        if cell.out == OutState::DanglingSymlink && refusal && link_target.exists() {
+            return Err("refused, but the target of the dangling symlink given as output was created".into());
+        }
         if refusal {
             if o.exit.ok() {
                 return Err(format!("refusal expected but the command exited 0 ({})", o.tail().lines().last().unwrap_or("")));
